@@ -52,6 +52,12 @@ def _gen(rng, i=None):
             lab = rng.choice([2, 5])
             body = [(0, 1, 1, None)] * rng.randint(1, 3) + [(1, 1, 3, lab), (1, rng.choice([1, 2]), 3, None),
                                                             (5, 1, 3, rng.choice([('?', lab, 13), ('!', lab, 13), ('?', lab, ('?', 13, 13))]))]
+        elif kind < 0.4:
+            # two labels taken in turn for ever (the sign of the top value flips every round): no single target is taken
+            # a hundred times in a row, yet the loop never ends and its values stay small
+            la, lb = rng.sample([2, 3, 4, 5, 6], 2)
+            body = [(0, 1, rng.choice([5, 7, 2]), None), (1, 1, 3, la)] + [(0, 1, 1, None), (1, 1, 6, None)] * rng.randint(0, 1) + [(1, 1, 3, lb)]
+            body += [(3, 1, 3, rng.choice([('?', la, lb), ('?', lb, la), ('!', la, lb)]))]
         elif kind < 0.5:
             body = [(0, 1, 1, 4), (1, 1, rng.choice([5, 1, 2]), None)] + [(0, 1, 1, None), (1, 1, 6, None)] * rng.randint(0, 2) + [(0, 1, 1, 4)]
         else:
